@@ -715,5 +715,9 @@ pub fn run(cfg: &RunCfg) {
   // counts chosen so that the stride of the in-Coq sample (n/20, n/200) is odd and meets all four streams
   let n = if cfg.tier == Tier::Quick { 2620 } else { 26200 };
   let tier = cfg.tier;
-  run_cases(cfg, n, |seed, k| gen_case(seed, k, tier));
+  // registry (stage B2) worlds built by the real builder: redirects, package table, unknown exports
+  let nj = if cfg.tier == Tier::Quick { 3001 } else { 60001 };
+  run_cases(cfg, n + nj, |seed, k| {
+    if k < n { gen_case(seed, k, tier) } else { crate::props::jsr::gen_case(seed, k - n, crate::props::jsr::Flavour::Mapping) }
+  });
 }
